@@ -14,3 +14,6 @@ def run(ctx, rep):
     from ..rules import more3
     more3.rule_threshold_forward(mod, rep)
     more3.rule_etree_mustwrite(mod, rep)
+    from ..rules import more4
+    more4.rule_panel_column(mod, rep)
+    more4.rule_segment_scan(mod, rep)
